@@ -1,6 +1,6 @@
 /-
   C05 — candidate clusters group protoclusters by the documented kinds.
-  Property theorems only; helper lemmas in ASV/Proofs/{MergeSets,Candidates,Coverage,Members,SpecBridge,NoDup,Passes,Total,HybridWindow,PermInvariant,RingFacts,RingInterleaved,NoDupRing,RingHybrid,SortModel,SortLinear,Definition}.lean.
+  Property theorems only; helper lemmas in ASV/Proofs/{MergeSets,Candidates,Coverage,Members,SpecBridge,NoDup,Passes,Total,HybridWindow,PermInvariant,RingFacts,RingInterleaved,NoDupRing,RingHybrid,SortModel,SortLinear,Definition,TableDesc,Refines}.lean.
 
   Model: ASV/Model/Candidates.lean (formation.py after the repairs D16, D19, D501–D507).
   `formation ps wrap` is `create_candidates_from_protoclusters(protoclusters, circular_wrap_point)`;
@@ -8,7 +8,7 @@
   only hypothesis on the input is `ps.Nodup` (no protocluster object supplied twice), and only where
   counting is involved.  Every theorem holds for all inputs, linear and circular, of any size.
 -/
-import ASV.Proofs.Definition
+import ASV.Proofs.Refines
 namespace ASV.C05
 open ASV ASV.CC ASV.CC.Spec
 
@@ -394,9 +394,42 @@ theorem collection_order_inconsistent_on_a_ring :
     locLt (.simple ⟨0, 100, .fwd⟩) (.compound [⟨90, 100, .fwd⟩, ⟨0, 10, .fwd⟩]) = true ∧
     locLt (.compound [⟨90, 100, .fwd⟩, ⟨0, 10, .fwd⟩]) (.simple ⟨0, 100, .fwd⟩) = true := by decide
 
-/-- Not proved: the composition of the three passes with the coordinate table equals `Spec.reference`
-    (the correspondence compares every implementation output with it).  The per-pass theorems of
-    section 5 give the groups of each pass; the table step is covered by sections 2–4. -/
+/-! ### 8. the table step without the order of the groups, and the whole run stage by stage -/
+
+/-- `build_candidates(groups, kind)` said without the order of the groups (any record): per
+    coordinate key, the members of all groups with that key are added to the candidate stored under it
+    (a new candidate of the pass's kind when there was none); a protocluster added to a candidate of
+    ANOTHER kind that did not contain it becomes a promoted single, and nothing else does; keys stay
+    distinct.  This is the "promotion" rule of the reference (`Spec.addGroups`) as a theorem about the
+    sequential, table-mutating loop. -/
+theorem build_candidates_is_order_free (wrap : Option Int) (kind : Kind) (t t' : Table) (gs : List (List Proto))
+    (hn : (keys t.existing).Nodup) (h : buildCandidates wrap kind t gs = .ok t') : PassDesc wrap kind t t' gs :=
+  buildCandidates_desc h hn
+
+/-- The run on a linear record refines the documented description, stage by stage (`RefinesLinear`):
+    hybrid groups = one gene-sharing chain class plus exactly the contained unshared protoclusters;
+    table step; interleaved groups = chain classes of "cores overlap" over hybrid candidates and
+    unabsorbed protoclusters; table step; neighbouring groups = chain classes of "extents overlap" over
+    all candidates and remaining protoclusters; table step; singles for the remaining and the promoted
+    protoclusters unless the candidate with the same coordinates contains them; the result is a
+    permutation of table values ++ singles.  Hypotheses: no protocluster supplied twice, extents and
+    cores single parts with the core non-empty inside the extent (what a linear record guarantees).
+    What separates this from equality with the executable `Spec.reference` is listed at
+    `FormationRefinesReference` below. -/
+theorem formation_refines_reference_linear (ps : List Proto) (cs : List Cand) (hn : ps.Nodup) (hne : ps ≠ [])
+    (hv : ∀ p, p ∈ ps → ((∃ q, p.loc = .simple q ∧ 0 ≤ q.lo ∧ q.lo ≤ q.hi) ∧ ∃ r, p.core = .simple r) ∧
+      ∃ r, p.core = .simple r ∧ r.lo < r.hi ∧ p.loc.start ≤ r.lo)
+    (h : formation ps none = .ok cs) : RefinesLinear ps cs :=
+  formation_refines_linear hn hne hv h
+
+/-- Still not proved: equality with the *executable* `Spec.reference` (the correspondence compares every
+    implementation output with it).  `formation_refines_reference_linear` gives the run stage by stage in
+    the reference's own notions; what is missing for the equality is
+    (1) that `Spec.classesOf` (fixpoint union) returns exactly the `Linked` chain classes of
+        `shareGroups` / `overlapGroups` (with the ≥ 2-units filter),
+    (2) that `Spec.addGroups` satisfies `PassDesc` (it is that statement read as a definition) and
+        the unfolding of the monadic `reference` into its six stages,
+    (3) circular records. -/
 def FormationRefinesReference : Prop :=
   ∀ (ps : List Proto) (wrap : Option Int) (cs : List Cand) (es : List (Kind × List Proto)), ps.Nodup →
     formation ps wrap = .ok cs → reference ps wrap = .ok es →
